@@ -5,15 +5,27 @@
 /// verification harnesses (only compiled under cfg(kani) or --cfg precis_verif)
 #[allow(missing_docs, dead_code, unused_imports, unused_macros, clippy::all)]
 pub mod pv {
+    pub use crate as precis_profiles;
+
     #[macro_use]
     pub mod sup {
         include!(concat!(env!("PRECIS_VERIF_DIR"), "/kani/support.rs"));
     }
     include!(concat!(env!("PRECIS_VERIF_DIR"), "/build/gen/oracle.rs"));
     include!(concat!(env!("PRECIS_VERIF_DIR"), "/build/gen/known.rs"));
+    pub mod norm_model {
+        include!(concat!(env!("PRECIS_VERIF_DIR"), "/kani/norm_model.rs"));
+    }
     pub mod stubs {
         include!(concat!(env!("PRECIS_VERIF_DIR"), "/kani/stubs.rs"));
+        include!(concat!(env!("PRECIS_VERIF_DIR"), "/kani/stubs_pipe.rs"));
         include!(concat!(env!("PRECIS_VERIF_DIR"), "/kani/stubs_bidi.rs"));
+    }
+    pub mod pipe {
+        include!(concat!(env!("PRECIS_VERIF_DIR"), "/kani/bodies/pipe.rs"));
+    }
+    pub mod pipe_user {
+        include!(concat!(env!("PRECIS_VERIF_DIR"), "/kani/bodies/pipe_user.rs"));
     }
     pub mod c14 {
         include!(concat!(env!("PRECIS_VERIF_DIR"), "/kani/bodies/c14.rs"));
